@@ -180,12 +180,24 @@ def groups_case(case):
         flat = [i for g in groups for i in g]
         valid = all(0 <= i < D for i in flat) and len(set(flat)) == len(flat)
         n += 1
-        model = M.make(name, groups=[list(g) for g in groups], alpha=0.1, max_iter=1)
+        given = [list(g) for g in groups]
+        model = M.make(name, groups=given, alpha=0.1, max_iter=1)
         err, steps = _fit_probe(model, X)
         where = dict(target=name, param="groups", expect="in" if valid else "out")
         _judge(err, steps, model, valid, v, where, {"groups": groups})
         if valid and err is None:
             nt += 1
+            # the user's list object is a value, not a scratch buffer: the very same object stays valid for another estimator on narrower
+            # data (every index it names exists there) and still reads as it was written
+            if given != [list(g) for g in groups]:
+                v.append(violation("in_domain_value_rejected", {"groups_as_given": groups, "same_list_after_fit": given,
+                                                                "why": "the caller's list was rewritten by fit"}, **dict(where, expect="in", history="same list object reused")))
+            width = max(flat) + 1
+            if width < D:
+                err2, _ = _fit_probe(M.make(name, groups=given, alpha=0.1, max_iter=1), X[:, :width])
+                if err2 is not None:
+                    v.append(violation("in_domain_value_rejected", {"groups": groups, "history": f"list object first used on {D} features, then on {width}", "error": repr(err2)[:200]},
+                                       **dict(where, expect="in", history="same list object reused")))
             exp = [list(g) for g in groups] + [[i] for i in range(D) if i not in flat]
             if [list(map(int, g)) for g in model.groups_] != exp:
                 v.append(violation("partial_group_list_not_completed_by_singletons", {"groups": groups, "groups_": model.groups_}, **where))
